@@ -393,6 +393,29 @@ def mem_spec(order, nbytes, width, base='this.data', idx='offset'):
 
 def check_2448(ctx, u):
     R = 'C01-R4'
+    # the sign-extending forms rest on ext24 / ext48 (Encoding.hh): bits >= N replicate bit N-1
+    from bits import Interp as _Interp, sym_bv as _sym_bv
+    I1 = _Interp(u)
+    for nm_, N_ in (('ext24', 24), ('ext48', 48)):
+        fe = [f_ for f_ in u.func('phosg::' + nm_) if body_of(f_) is not None]
+        if len(fe) != 1:
+            ctx.undecided(R, nm_ + '|sign-replication', 'Encoding.hh', '%s not found in this unit' % nm_)
+            continue
+        ctx.fn('phosg::' + nm_)
+        pe = params_of(fe[0])[0]
+        pw_, ps_ = int_type_info(dtype(pe))
+        I1.notes = []
+        v_ = I1.eval_function(fe[0], {pe['id']: _sym_bv('a', pw_, ps_, free_bits=N_)})
+        if v_ is None:
+            ctx.undecided(R, nm_ + '|sign-replication', fe[0], 'cannot derive the bit map of %s' % nm_)
+            continue
+        spec_ = [('i', 'a', i_) if i_ < N_ else ('i', 'a', N_ - 1) for i_ in range(v_.w)]
+        bad_ = expect_lanes(v_, spec_)
+        if bad_ and all(g_ == T for _, g_, _w in bad_):
+            ctx.undecided(R, nm_ + '|sign-replication', fe[0], 'the bit map could not be derived for %d bit(s)' % len(bad_))
+        else:
+            ctx.check(not bad_ and not I1.notes, R, nm_ + '|sign-replication', fe[0], 'bits >= %d equal bit %d of the argument, low bits unchanged' % (N_, N_ - 1),
+                      '%s does not replicate bit %d into bits %d..%d, so get_s%d* / pget_s%d* return v + 2^%d for negative fields: %s %s' % (nm_, N_ - 1, N_, v_.w - 1, N_, N_, N_, describe_mismatch(bad_), '; '.join(I1.notes)))
     I = BVExec(u)
     ms = methods_of(u, 'phosg::StringReader')
     for bits in (24, 48):
